@@ -237,6 +237,10 @@ Result execute(const Plan &p) {
             for (long i = 0; i < nb; ++i) for (ptrdiff_t j = S.ptr[i]; j < S.ptr[i+1]; ++j) { A.col[j] = S.col[j]; B b; for (int a = 0; a < 2; ++a) for (int c2 = 0; c2 < 2; ++c2) b(a, c2) = (double)r.range(-2, 2);
                 if (S.col[j] == i) { b(0, 0) = (double)r.range(6, 12); b(1, 1) = (double)r.range(1, 3) * (r.chance(0.3) ? 16.0 : 1.0) + 6; }   // dominant, sometimes badly scaled diagonal blocks
                 A.val[j] = b; }
+            // some rows keep only their diagonal block (Dirichlet-like rows: the single-entry fast paths of the row-merge SpGEMM)
+            if ((ms >> 5) % 3 == 0) { be::crs<B> A2; A2.set_size(nb, nb, true); for (long i = 0; i < nb; ++i) A2.ptr[i+1] = (i % 3 == 1) ? 1 : (A.ptr[i+1] - A.ptr[i]); A2.set_nonzeros(A2.scan_row_sizes());
+                for (long i = 0; i < nb; ++i) { ptrdiff_t h = A2.ptr[i]; for (ptrdiff_t j = A.ptr[i]; j < A.ptr[i+1]; ++j) if (i % 3 != 1 || A.col[j] == i) { A2.col[h] = A.col[j]; A2.val[h] = A.val[j]; ++h; } }
+                std::swap(A.nrows, A2.nrows); std::swap(A.ncols, A2.ncols); std::swap(A.nnz, A2.nnz); std::swap(A.ptr, A2.ptr); std::swap(A.col, A2.col); std::swap(A.val, A2.val); }
             // transpose: block (j,i) is the adjoint (transposed) block
             auto T = be::transpose(A);
             std::map<std::pair<long,long>, B> want; for (long i = 0; i < nb; ++i) for (ptrdiff_t j = A.ptr[i]; j < A.ptr[i+1]; ++j) want[std::make_pair((long)A.col[j], i)] = amgcl::math::adjoint(A.val[j]);
@@ -248,6 +252,10 @@ Result execute(const Plan &p) {
             Eigen::MatrixXd DD = D * D, G = Eigen::MatrixXd::Zero(2 * nb, 2 * nb);
             for (size_t i = 0; i < P2->nrows; ++i) for (ptrdiff_t j = P2->ptr[i]; j < P2->ptr[i+1]; ++j) for (int a = 0; a < 2; ++a) for (int c2 = 0; c2 < 2; ++c2) G(2 * i + a, 2 * P2->col[j] + c2) += P2->val[j](a, c2);
             if ((G - DD).cwiseAbs().maxCoeff() != 0) res.fail(sig("dense-definition", "block-product", "block product differs from the unblocked dense product"));
+            // A * A^T: a single-block row now multiplies a different operand's row, so the block operand order matters
+            { auto P3 = be::product(A, *T, true); Eigen::MatrixXd DT = D * D.transpose(), G3 = Eigen::MatrixXd::Zero(2 * nb, 2 * nb);
+              for (size_t i = 0; i < P3->nrows; ++i) for (ptrdiff_t j = P3->ptr[i]; j < P3->ptr[i+1]; ++j) for (int a = 0; a < 2; ++a) for (int c2 = 0; c2 < 2; ++c2) G3(2 * i + a, 2 * P3->col[j] + c2) += P3->val[j](a, c2);
+              if ((G3 - DT).cwiseAbs().maxCoeff() != 0) res.fail(sig("dense-definition", "block-product-AAt", "block product A*A^T differs from the unblocked dense product")); }
             // scaled Gershgorin: max_i ||D_i^-1|| * sum_j ||A_ij||  (block norms) and an upper bound of rho(D^-1 A)
             double g = be::spectral_radius<true>(A, 0), gu = be::spectral_radius<false>(A, 0), wantg = 0, wantu = 0;
             for (long i = 0; i < nb; ++i) { double sum = 0; B dia = amgcl::math::identity<B>(); for (ptrdiff_t j = A.ptr[i]; j < A.ptr[i+1]; ++j) { sum += amgcl::math::norm(A.val[j]); if (A.col[j] == i) dia = A.val[j]; }
